@@ -1,7 +1,7 @@
 """glue between the properties and the deductive engine: which contracts carry which property, which obligations a property claims"""
 import re
 from pyvc import vc, lemmas
-from pyvc.report import REFUTED, UNDECIDED
+from pyvc.report import REFUTED, UNDECIDED, PROVED, Ob
 
 _TAG = re.compile(r"/((?:C\d\d,?)+):")        # a clause may carry several properties: "C09,C14:no-earlier-bin-fits"
 
@@ -101,7 +101,7 @@ def replay_and_crosscheck(rep, prop, res, obs):
             if w.get("approximate") and confirm is None:
                 # the path used an over-approximating model (e.g. rounding of a narrow float type): the engine's result is not a prediction, so the
                 # counter-model cannot be confirmed by comparison; the failed obligation stands, without a replayed input
-                ob.detail = f"counter-model {w} (over-approximating arithmetic model on this path: not replayable by comparison) | " + ob.detail
+                ob.detail = f"counter-model {w} (this path depends on an over-approximating model - rounding of a narrow float type, hidden bookkeeping state, or the truth value / type of an item name - so it is not replayable by comparison on plain numbers) | " + ob.detail
                 continue
             if (confirm(unjson(w), real) if confirm is not None else same(pred, real)):
                 ob.replayed = True
@@ -189,3 +189,65 @@ def run_static(rep, prop, rules, only_files=None):
             continue
         rep.add(o)
     rep.trust("static discipline checker: callees outside the analysed modules are assumed not to write their arguments (" + ", ".join(unknown[:25]) + ", ...)")
+    if only_files is None:
+        run_bindings(rep, prop)
+
+
+# ------------------------------------------------------------------------------------------------ public names
+# The contracts are attached to functions by file and name; users (and the T3 stand-ins) reach them through the aliases of prtpy/__init__.py.
+# For every alias whose target is under contract: the alias is bound to that function.  A different binding does not refute anything by itself
+# (another function may satisfy the same property): the proof then says nothing about what users call, which is reported as UNDECIDED, and the
+# T3 stand-in - which goes through the public names - decides.
+PUBLIC = {
+    "partitioning": {"cg": "complete_greedy::anytime", "complete_greedy": "complete_greedy::anytime", "dp": "dynamic_programming::optimal",
+                     "dynamic_programming": "dynamic_programming::optimal", "ilp": "integer_programming::optimal", "integer_programming": "integer_programming::optimal",
+                     "greedy": "greedy::greedy", "lpt": "greedy::greedy", "longest_processing_time": "greedy::greedy", "roundrobin": "roundrobin::roundrobin",
+                     "multifit": "multifit::multifit", "kk": "karmarkar_karp_sy::kk", "karmarkar_karp": "karmarkar_karp_sy::kk",
+                     "ckk": "complete_karmarkar_karp_sy::optimal", "complete_karmarkar_karp": "complete_karmarkar_karp_sy::optimal",
+                     "snp": "sequential_number_partitioning_sy::snp", "sequential_number_partitioning": "sequential_number_partitioning_sy::snp",
+                     "rnp": "recursive_number_partitioning_sy::rnp", "recursive_number_partitioning": "recursive_number_partitioning_sy::rnp", "cbldm": "cbldm::cbldm"},
+    "packing": {"first_fit": "first_fit::online", "ff": "first_fit::online", "first_fit_decreasing": "first_fit::decreasing", "ffd": "first_fit::decreasing",
+                "bin_completion": "bin_completion::bin_completion"},
+    "covering": {"decreasing": "greedy_covering::decreasing", "twothirds": "cflz_covering::twothirds", "threequarters": "cflz_covering::threequarters"},
+}
+
+
+def run_bindings(rep, prop):
+    import ast, os
+    from pyvc.report import REPO
+    path = os.path.join(REPO, "prtpy", "__init__.py")
+    found = {}
+    try:
+        tree = ast.parse(open(path).read())
+    except (OSError, SyntaxError) as e:
+        rep.add(Ob(id=f"{prop}/static/prtpy/__init__.py/public-names", tier="static", status=UNDECIDED, function="prtpy/__init__.py", detail=f"cannot read the public names: {e}"))
+        return
+    for node in tree.body:
+        if isinstance(node, ast.ClassDef) and node.name in PUBLIC:
+            for st in node.body:
+                if isinstance(st, ast.ImportFrom) and st.module:
+                    for a in st.names:
+                        found[(node.name, a.asname or a.name)] = (st.module.split(".")[-1] + "::" + a.name, st.lineno)
+                elif isinstance(st, ast.Assign):
+                    for t in st.targets:
+                        if isinstance(t, ast.Name):
+                            found[(node.name, t.id)] = ("<assignment>", st.lineno)
+    # a later re-binding at module level (prtpy.covering.x = ...) also counts
+    for node in ast.walk(tree):
+        if isinstance(node, ast.Assign):
+            for t in node.targets:
+                if isinstance(t, ast.Attribute) and isinstance(t.value, ast.Name) and t.value.id in PUBLIC and t.attr in PUBLIC[t.value.id]:
+                    found[(t.value.id, t.attr)] = ("<assignment>", node.lineno)
+    ok, bad = 0, []
+    for cls, names in PUBLIC.items():
+        for name, target in names.items():
+            got = found.get((cls, name))
+            if got is not None and got[0] == target:
+                ok += 1
+            else:
+                bad.append((cls, name, target, got))
+    rep.add(Ob(id=f"{prop}/static/prtpy/__init__.py/public-names-are-bound-to-the-functions-under-contract", tier="static",
+               status=PROVED if not bad else UNDECIDED, function="prtpy/__init__.py", solver="static",
+               detail=(f"{ok} public aliases (prtpy.partitioning.*, prtpy.packing.*, prtpy.covering.*) resolve to the functions the contracts are attached to" if not bad else
+                       "; ".join(f"prtpy.{c}.{n} is bound to {g[0] + ' (line ' + str(g[1]) + ')' if g else 'nothing'}, the contracts speak about {t}" for c, n, t, g in bad[:4])
+                       + " - the deductive obligations do not cover what users call under that name; the bounded stand-in (which uses the public names) decides")))
